@@ -43,6 +43,7 @@ var classOwners = map[string][]string{
 	"COTENANT_DAMAGED":  {"C09", "C14"},
 	"SOLO_FAILURE":      {"none"},
 	"CALLER_MODIFIED":   {"C09"},
+	"INPUT_MODIFIED":    {"C09"},
 	"RETAINED_CHANGED":  {"C09"},
 	// cursor-model classes of the buffered reader
 	"NIL_NIL": {"C04", "C14"}, "WRONG_BYTES": {"C04", "C14"}, "WRONG_LEN": {"C04", "C14"}, "READLEN": {"C04", "C14"},
